@@ -17,6 +17,8 @@
 #include <sys/resource.h>
 #include <stdarg.h>
 #include <pthread.h>
+#include <sys/mman.h>
+#include <fcntl.h>
 #if defined(__SANITIZE_ADDRESS__)
 #include <sanitizer/asan_interface.h>
 #include <sanitizer/lsan_interface.h>
@@ -1902,6 +1904,53 @@ static size_t heap_bytes(void)
  * every k in 0..N (at most maxk of them, evenly spread) on a fresh environment (b) with a 1000 s limit and a clock that
  * jumps by 2000 s at its k-th read (record B) and (c) again without limit on the same environment (record C).
  * record: sub N nk (k timeouts nonnull sameB sameC usageB usageC leaked modified)*nk */
+/* stderr of one injected run is captured to find the first "Time limit exceeded in <file>:<line>" message the
+ * library's CMR_CALL macro prints: it names the timeout exit that was taken (used as call-site key of findings) */
+static int err_fd = -1, err_saved = -1;
+
+static void err_capture_begin(void)
+{
+  fflush(stderr);
+  if (err_fd < 0)
+    err_fd = memfd_create("drive-stderr", 0);
+  if (err_fd < 0)
+    return;
+  ftruncate(err_fd, 0);
+  lseek(err_fd, 0, SEEK_SET);
+  err_saved = dup(2);
+  dup2(err_fd, 2);
+}
+
+static void err_capture_end(char* site, size_t cap)
+{
+  site[0] = 0;
+  if (err_fd < 0 || err_saved < 0)
+    return;
+  fflush(stderr);
+  dup2(err_saved, 2);
+  close(err_saved);
+  err_saved = -1;
+  char buf[4096];
+  lseek(err_fd, 0, SEEK_SET);
+  ssize_t n = read(err_fd, buf, sizeof(buf) - 1);
+  if (n <= 0)
+    return;
+  buf[n] = 0;
+  char* p = strstr(buf, "Time limit exceeded in ");
+  if (!p)
+    return;
+  p += strlen("Time limit exceeded in ");
+  char* slash = p;
+  for (char* q = p; *q && *q != '\n'; ++q)
+    if (*q == '/')
+      slash = q + 1;
+  size_t i = 0;
+  for (char* q = slash; *q && *q != '\n' && *q != ' ' && i + 1 < cap; ++q)
+    if (*q != '.' || q[1] != '\n')
+      site[i++] = *q;
+  site[i] = 0;
+}
+
 static void do_tlimit(CMR* cmr)
 {
   int sub = (int) nx();
@@ -1922,6 +1971,9 @@ static void do_tlimit(CMR* cmr)
   oi(sub);
   oi(N);
   oi(nk);
+  char* sites = malloc((size_t) nk * 80 + 16);
+  size_t sitesLen = 0;
+  sites[0] = 0;
   for (long j = 0; j < nk; ++j)
   {
     long k = (nk == N + 1) ? j : (long) ((double) j * N / (nk - 1));
@@ -1933,7 +1985,10 @@ static void do_tlimit(CMR* cmr)
     clk_reads = 0;
     clk_jump_at = k;
     g_tl = 1000.0;
+    char site[64];
+    err_capture_begin();
     run_captured(env, sub, start, end, &B);
+    err_capture_end(site, sizeof(site));
     clk_jump_at = -1;
     g_tl = DBL_MAX;
     run_captured(env, sub, start, end, &C);
@@ -1952,8 +2007,12 @@ static void do_tlimit(CMR* cmr)
     size_t heap1 = heap_bytes();
     oi(heap1 > heap0 ? (long long) (heap1 - heap0) : 0);
     oi(modified);
+    sitesLen += (size_t) sprintf(sites + sitesLen, " %ld=%s", k, site[0] ? site : "-");
   }
   rec_end();
+  /* flag line X: for every injected k the timeout exit that was taken ("-" if none) */
+  printf("X%s\n", sites);
+  free(sites);
   free(A.text);
   ptok = end;
 }
